@@ -32,6 +32,12 @@ CHECKS = {
  "C18": ("Theorems (Props/C18.v) over the hand models of the Backend proxy and FrontendReqHandler: the acknowledgement carries the handler's value, resp. 2^64-errno, resp. 2^64-EINVAL; at most one handler invocation and one acknowledgement per request for every input; without REPLY_ACK nothing is written and nothing awaited; with REPLY_ACK the proxy call succeeds only on a genuine zero acknowledgement; shared-object / shmem requests are refused silently until enabled. Correspondence: family psess (real proxy against real server, recording handler: equal arguments, same file by device+inode, success iff handler returned 0), fsrv and proxy (raw peers).",
          "Partial: hand models tied by correspondence; errno i32::MIN (checked negation would overflow) is outside the generated errno classes; 'k-th acknowledgement answers k-th request' follows from at-most-one-ack-per-request plus in-order serving and is exercised by multi-request histories in fsrv, not stated as a separate theorem. The GPU proxy is not covered.",
          "Coq proof (model lemmas, all inputs) + differential correspondence incl. real-proxy/real-server sessions", "DESIGN.md section 7 C18"),
+ "C11": ("Model-level theorems (Props/C11.v): after the registration update the ring's current kick descriptor is in its owner's epoll set exactly when the ring is ready and enabled (every state, ring, mask set); GET_VRING_BASE stops the ring, returns next-avail unchanged and drops kick and call. The life-cycle over whole histories (started by a kick descriptor, stopped by GET_VRING_BASE, enabled by SET_FEATURES without PROTOCOL_FEATURES or SET_VRING_ENABLE 1, disabled by SET_VRING_ENABLE 0 / RESET_DEVICE, kicks retained while inactive, delivered on activation, none while inactive) is decided by family dmn on a real daemon against Spec/DaemonSpec.v.",
+         "Partial: the invariant is proved for the registration step, not yet as an inductive invariant over all control histories (that clause rests on the sampled correspondence: ~480 histories per run). Hand model of handler.rs/vring.rs/event_loop.rs; epoll, eventfd and lock semantics are assumptions.",
+         "Coq proof (per-step registration lemma over the hand model) + history correspondence on a real daemon", "DESIGN.md section 7 C11"),
+ "C17": ("Theorems (Props/C17.v), for all masks and queue numbers: the daemon's event id popcount(mask)-popcount(mask>>q) equals the number of lower-numbered queues in the mask; the owner is the first worker whose mask contains q (model = specification); the element at that id of the worker's ring slice is queue q; queue ids are below the worker's queue count, hence never the exit id or a listener id. Correspondence: family dmn routes every queue of every mask set of a table (plus random mask sets) on a real daemon and registers/fires custom listeners across the id range.",
+         "The arithmetic is proved in full generality; the event-id expression and the slice construction are transcribed by hand from handler.rs (tied by correspondence), not regenerated. Listener acceptance (ids above num_queues and within 16 bits) is modelled and checked by correspondence.",
+         "Coq proof (popcount/filter lemmas by induction, unbounded) + routing correspondence on a real daemon", "DESIGN.md section 7 C17"),
 }
 m = {
  "version": 1,
@@ -46,7 +52,7 @@ m = {
  "engines": [{"name": "coq-proof+correspondence", "path": "check", "serves_properties": sorted(CHECKS),
               "kind_free_text": "Coq 8.16 theorems over definitions regenerated from /repo by the translator rs2v and over hand models, plus differential correspondence (real crates vs extracted model vs executable spec)"}],
  "checks": [],
- "notes": "see DESIGN.md; known_findings.json lists genuine defects (fixed: F1, F3, F4, F8, F10, F11)",
+ "notes": "see DESIGN.md; known_findings.json lists genuine defects (fixed: F1, F2, F3, F4, F5, F8, F10, F11)",
  "not_applicable": [],
 }
 for pid in sorted(CHECKS):
